@@ -5,4 +5,7 @@ MODULES = {
     'ApiPhases': 'api_phases',
     'Globals': 'globals',
     'PersistKeys': 'persist_keys',
+    'Slippage': 'slippage',
+    'PosArith': 'position',
+    'ValidatorChain': 'validator_chain',
 }
